@@ -1166,6 +1166,239 @@ func c07Configs(run *vfRun) []c07Cfg {
 	return cfgs
 }
 
+
+// ---------------------------------------------------------------------------------------------------------
+// concurrent phase: the header injector is built once at start-up and called from every request goroutine. Several
+// users (names of different lengths) hammer the same instance at the same time; every single request must carry the
+// rendering of ITS OWN session, at the upstream and on /oauth2/auth.
+
+func c07ConcurrentCfgs() []c07Cfg {
+	cl := func(c string) c07Val { return c07Val{Kind: "claim", Claim: c} }
+	a := c07LegacyRef(c07Legacy{PassUser: true, PassBasic: true, PassAT: true, SetX: true, SetBasic: true, Strip: true, Pw: "conc-pw"})
+	a.Label = "conc-legacy-basic"
+	// (no --prefer-email-to-user here: its known X-Forwarded-Email pass-through belongs to the sequential sweep)
+	b := c07LegacyRef(c07Legacy{PassUser: true, PassAT: true, PassAuthz: true, SetX: true, SetAuthz: true, Strip: true})
+	b.Label = "conc-legacy-bearer"
+	c := c07Cfg{Kind: "alpha", Label: "conc-alpha-basic-values",
+		Req: []c07Hdr{
+			{Name: "Authorization", Vals: []c07Val{{Kind: "claim", Claim: "email", Basic: true, Pw: "file-pw", Src: "fromFile"}}},
+			{Name: "X-Multi-Basic", Vals: []c07Val{{Kind: "claim", Claim: "groups", Basic: true, Pw: "gpw", Src: "value"}, {Kind: "claim", Claim: "user", Prefix: "u="}, {Kind: "secret", Secret: "static-c", Src: "value"}}},
+			{Name: "X-Forwarded-User", Vals: []c07Val{cl("user")}},
+			{Name: "x-forwarded-GROUPS", Vals: []c07Val{{Kind: "claim", Claim: "groups", Prefix: "grp:"}}},
+			{Name: "X-Pu-Basic", Preserve: true, Vals: []c07Val{{Kind: "claim", Claim: "preferred_username", Basic: true, Prefix: "Basic ", Pw: c07EnvSecret, Src: "fromEnv"}}},
+			{Name: "X-Session-Created", Vals: []c07Val{cl("created_at")}}},
+		Resp: []c07Hdr{
+			{Name: "Authorization", Vals: []c07Val{{Kind: "claim", Claim: "user", Basic: true, Pw: "rpw", Src: "value"}}},
+			{Name: "X-Auth-Request-Groups", Vals: []c07Val{cl("groups")}},
+			{Name: "X-Auth-Request-Email", Vals: []c07Val{{Kind: "claim", Claim: "email", Prefix: "mailto:"}}}}}
+	out := []c07Cfg{a, b, c}
+	for k := range out {
+		out[k].Bucket = "concurrent|" + out[k].Label
+		out[k].Flags = append(out[k].Flags, "--skip-auth-route=^/open/", "--skip-jwt-bearer-tokens=true")
+	}
+	return out
+}
+
+// c07ConcurrentUsers: distinct users whose names, e-mails, group lists and tokens all differ in length.
+func c07ConcurrentUsers(run *vfRun, w *vfWorld, p *vfProxy, inst int, book *c07TokenBook) []*c07Sess {
+	var out []*c07Sess
+	for k := 0; k < 8; k++ {
+		name := strings.Repeat(string(rune('a'+k)), 2+5*k)
+		sub := fmt.Sprintf("%s#c%d", name, inst)
+		var groups []string
+		for g := 0; g < k; g++ {
+			groups = append(groups, fmt.Sprintf("%s-grp%d", name[:2], g))
+		}
+		id := vfIdentity{Sub: sub, Email: name + "@" + strings.Repeat("x", 1+k) + ".example.com", PreferredUsername: strings.ToUpper(name[:1+k/2]) + "-pu", Groups: groups, Profile: map[string]interface{}{"sub": sub}}
+		if k == 3 {
+			id.PreferredUsername = ""
+		}
+		b := vfNewBrowser("")
+		if _, _, err := b.Login(p, id, "/"); err != nil {
+			run.Inconclusive("concurrent phase: login failed")
+			continue
+		}
+		tk, ok := book.get(sub)
+		if !ok {
+			run.Inconclusive("concurrent phase: no tokens recorded")
+			continue
+		}
+		out = append(out, &c07Sess{Label: fmt.Sprintf("conc-cookie-%d", k), Source: "cookie", Class: "concurrent-user", HasSession: true, User: sub, Email: id.Email, PU: id.PreferredUsername, Groups: groups,
+			AT: tk.AT, IDT: tk.IDT, RT: tk.RT, Created: "one", Expires: "one", Cookie: vfCookieHeader(b.Jar.For("proxy.test", "/", false))})
+	}
+	now := time.Now()
+	for k := 0; k < 2; k++ {
+		sub := fmt.Sprintf("svc-%s#c%d", strings.Repeat("z", 3+9*k), inst)
+		claims := map[string]interface{}{"sub": sub, "email": fmt.Sprintf("svc%d@bearer.example.com", k), "groups": []string{"m" + fmt.Sprint(k), "shared"},
+			"iss": w.IdP.Issuer, "aud": "cid", "iat": now.Unix(), "exp": now.Add(2 * time.Hour).Unix()}
+		tok := vfMint(claims, vfMintOpts{})
+		out = append(out, &c07Sess{Label: fmt.Sprintf("conc-bearer-%d", k), Source: "bearer", Class: "concurrent-user", HasSession: true, User: sub, Email: claims["email"].(string),
+			Groups: []string{"m" + fmt.Sprint(k), "shared"}, AT: tok, IDT: tok, Created: "any", Expires: "one", Authz: "Bearer " + tok})
+	}
+	return out
+}
+
+type c07ConcFail struct {
+	sess     *c07Sess
+	req      *vfReq
+	ep, side string
+	h        c07Hdr
+	client   []string
+	obs      []string
+	exp      [][]c07Part
+	other    string
+	wire     bool
+}
+
+func c07ConcurrentPhase(run *vfRun, t *testing.T) {
+	w := vfNewWorld(t)
+	defer w.Close()
+	book := &c07TokenBook{m: map[string]c07Tokens{}}
+	w.IdP.Set(func(c *vfIdPCfg) { c.TokenResponseMutate = book.hook })
+	cfgs := c07ConcurrentCfgs()
+	proxies := make([]*vfProxy, len(cfgs))
+	for k := range cfgs {
+		c07Materialize(w, &cfgs[k], "")
+		var err error
+		if cfgs[k].Kind == "alpha" {
+			proxies[k], err = w.NewProxyRaw(cfgs[k].YAML, cfgs[k].Flags)
+		} else {
+			proxies[k], err = w.NewProxy(cfgs[k].Flags...)
+		}
+		if err != nil {
+			t.Fatalf("concurrent phase: config %s does not build: %v", cfgs[k].Label, err)
+		}
+		proxies[k].Server()
+	}
+	perUser := run.Env.Pick(300, 1500)
+	endpoints := []struct{ Name, Target string }{{"proxied", "/app/x?q=1"}, {"auth-only", "/oauth2/auth"}, {"bypassed", "/open/x"}}
+	reported := 0
+	for k := range cfgs {
+		cfg, p := &cfgs[k], proxies[k]
+		users := c07ConcurrentUsers(run, w, p, 9000+k, book)
+		if len(users) < 8 {
+			run.Inconclusive("concurrent phase: fewer than 8 users")
+			continue
+		}
+		spoofNames := append([]string{}, c07Names(cfg.Req)...)
+		var mu sync.Mutex
+		var fails []c07ConcFail
+		start := make(chan struct{})
+		var wg sync.WaitGroup
+		for ui, u := range users {
+			wg.Add(1)
+			go func(ui int, sess *c07Sess) {
+				defer wg.Done()
+				<-start
+				for i := 0; i < perUser; i++ {
+					ep := endpoints[(i+ui)%3]
+					id := fmt.Sprintf("c07c-%d-%d-%d", k, ui, i)
+					req := vfNewReq("GET", ep.Target, "X-Vf-Id", id)
+					if sess.Cookie != "" {
+						req.H("Cookie", sess.Cookie)
+					}
+					client, _, _ := c07Spoof(req, []int{0, 1, 3, 0}[i%4], spoofNames, sess, fmt.Sprintf("c%d.%d.%d", k, ui, i))
+					wire := i%5 == 4
+					var resp *vfResp
+					if wire {
+						resp = p.Wire(req)
+					} else {
+						resp = p.Do(req)
+					}
+					run.Count("concurrent_requests", 1)
+					if resp.Panic != "" {
+						run.Violation("c07:panic", "request handling panicked in the concurrent phase (config "+cfg.Label+")", map[string]interface{}{"flags": cfg.Flags, "yaml": cfg.YAML, "request": req, "panic": vfTrunc(resp.Panic, 3000), "stack": vfTrunc(resp.Stack, 3000)})
+						continue
+					}
+					if resp.Err != "" {
+						run.Inconclusive("concurrent phase: wire error")
+						continue
+					}
+					run.Eval(fmt.Sprintf("%s|%s/%s|%s|concurrent", cfg.Bucket, sess.Source, sess.Class, ep.Name))
+					check := func(side string, h c07Hdr, cl []string, obs []string) {
+						exp := c07ExpectS(h, sess, cl)
+						run.Count("concurrent_judged_names", 1)
+						if c07Judge(exp, obs) == "" {
+							return
+						}
+						other := ""
+						for _, o := range users {
+							if o != sess && c07Judge(c07ExpectS(h, o, cl), obs) == "" {
+								other = o.Label + " (" + o.User + ")"
+							}
+						}
+						mu.Lock()
+						fails = append(fails, c07ConcFail{sess: sess, req: req, ep: ep.Name, side: side, h: h, client: cl, obs: obs, exp: exp, other: other, wire: wire})
+						mu.Unlock()
+					}
+					if ep.Name == "auth-only" {
+						if resp.Code != 202 {
+							run.Inconclusive(fmt.Sprintf("concurrent phase: auth-only status %d", resp.Code))
+							continue
+						}
+						for _, h := range cfg.Resp {
+							check("auth-response", c07Hdr{Name: h.Name, Vals: h.Vals}, nil, c07Lines(resp.Header, h.Name))
+						}
+						continue
+					}
+					hits := w.Up.FindHit(id)
+					if len(hits) != 1 {
+						run.Inconclusive(fmt.Sprintf("concurrent phase: %d upstream hits (status %d)", len(hits), resp.Code))
+						continue
+					}
+					for _, h := range cfg.Req {
+						check("upstream-request", h, client[strings.ToLower(h.Name)], c07Lines(hits[0].Header, h.Name))
+					}
+				}
+			}(ui, u)
+		}
+		close(start)
+		wg.Wait()
+		// every mismatch is re-executed alone: if the quiescent instance now renders the request's own user, concurrency
+		// was the cause
+		for _, f := range fails {
+			run.Count("concurrent_mismatches", 1)
+			if reported >= 6 {
+				continue // enough witnesses of the class; keeps the race-detector verdict below visible
+			}
+			reported++
+			id := fmt.Sprintf("c07c-re-%d-%d", k, reported)
+			re := f.req.Clone()
+			for i := range re.Headers {
+				if re.Headers[i][0] == "X-Vf-Id" {
+					re.Headers[i][1] = id
+				}
+			}
+			resp := p.Do(re)
+			var again []string
+			if f.side == "auth-response" {
+				again = c07Lines(resp.Header, f.h.Name)
+			} else if hits := w.Up.FindHit(id); len(hits) == 1 {
+				again = c07Lines(hits[0].Header, f.h.Name)
+			}
+			aloneOK := c07Judge(f.exp, again) == ""
+			sig, what := "c07:request-header-values-differ", "values differ from the session's (also when the request is repeated alone)"
+			if f.side == "auth-response" {
+				sig = "c07:auth-response-header-values-differ"
+			}
+			if f.other != "" || aloneOK {
+				sig = "c07:identity-of-another-request"
+				what = "under concurrent load the header does not carry this request's own user"
+				if f.other != "" {
+					what += "; it is exactly the rendering of the concurrent user " + f.other
+				} else {
+					what += " (a mix); the same request repeated alone is rendered correctly"
+				}
+			}
+			run.Violation(sig, fmt.Sprintf("%s header %s, config %s, session %s (%s), %s: %s: got %q, expected %q", f.side, f.h.Name, cfg.Label, f.sess.Label, f.sess.User, f.ep, what, f.obs, c07Describe(f.exp)),
+				c07Witness{Config: *cfg, Session: f.sess, Endpoint: f.ep, SpoofStyle: "concurrent", Request: f.req, RawRequest: string(f.req.Bytes()), Header: f.h.Name, Side: f.side,
+					Expected: c07Describe(f.exp), Observed: f.obs, Note: what,
+					Extra: map[string]interface{}{"concurrent_users": len(users), "requests_per_user": perUser, "driver_wire": f.wire, "same_request_alone": again, "matches_other_user": f.other}})
+		}
+		w.Up.Reset()
+	}
+}
+
 func TestVerif_C07(t *testing.T) {
 	run := vfNewRun(t, "C07", "exploration")
 	run.SetRule("configurations: legacy header flags (all 2^9 vectors x password on/off in thorough, covering sample of 64 in quick) + 3 fixed and 40/200 seeded random structured header lists via alpha config " +
@@ -1173,6 +1406,7 @@ func TestVerif_C07(t *testing.T) {
 		"sessions: 8 cookie-login identities (fields empty/multi/Unicode/separators; quick: the standard one + a rotating 3), 3 bearer JWTs, htpasswd Basic + sign-in form (16/32 instances, those injecting time claims first), none, invalid cookie; " +
 		"endpoints: proxied (methods rotate), bypassed (--skip-auth-route), /oauth2/auth (202/401), /oauth2/auth?allowed_groups=... (403); " +
 		"9 client header styles over the wire (canonical/lower/UPPER/mIxEd, x1-x3, comma-joined, case mix, as-configured + '_' look-alike, names listed in Connection). " +
+		"concurrent phase: 3 configurations with Basic-auth / prefix / plain / multi-valued injection x 10 users of different name lengths (8 cookie, 2 bearer) hammering the same instance simultaneously (300/1500 requests each), every request judged against its OWN session; race-detector reports in the injector are violations. " +
 		"cell = (option bucket, session source/class, endpoint, spoof style); non-trivial = at least one header configured")
 	run.Assume("header names configured only for responses, names not configured at all and look-alikes with '_' are counted, not judged",
 		"pass-basic-auth without basic-auth-password: Authorization is not treated as a configured request name",
@@ -1180,6 +1414,7 @@ func TestVerif_C07(t *testing.T) {
 		"X-Forwarded-Email under --prefer-email-to-user: injected value optional, client value must still be gone",
 		"--prefer-email-to-user with a session that has no e-mail: the user-name header may carry the user name or nothing (counted)")
 	os.Setenv(c07EnvName, c07EnvSecret)
+	c07ConcurrentPhase(run, t)
 	cfgs := c07Configs(run)
 	// Instances are built one after the other while nothing is being served (option loading and logger setup use
 	// package-level state, exactly once per process in production), then driven in parallel. One world per batch.
@@ -1244,5 +1479,10 @@ func TestVerif_C07(t *testing.T) {
 		fmt.Printf("INCONCLUSIVE property=C07 reason=too few header names judged %v\n", []int64{run.Counter("judged_request_names"), run.Counter("judged_response_names"), run.Counter("judged_preserved_names")})
 		t.Fail()
 	}
+	if run.Counter("concurrent_requests") < int64(run.Env.Pick(5000, 25000)) || run.Counter("concurrent_judged_names") < int64(run.Env.Pick(15000, 75000)) {
+		fmt.Printf("INCONCLUSIVE property=C07 reason=concurrent phase observed too little (%d requests, %d names)\n", run.Counter("concurrent_requests"), run.Counter("concurrent_judged_names"))
+		t.Fail()
+	}
+	run.RaceCheck("c07:data-race", "pkg/header/", "pkg/middleware/headers.go")
 	run.Finish(int64(run.Env.Pick(6000, 100000)), run.Env.Pick(400, 1500))
 }
